@@ -175,6 +175,23 @@ D15_CANARY = {
 }
 
 
+#: second canary for the D15 repair: the failure of one activity is already pending (its abort
+#: of first()'s scope is queued) when another result is about to be handed out
+D15_CANARY_PENDING = {
+    'objects': {}, 'start': 0, 'till': None,
+    'roots': [{'name': 'r0', 'steps': [
+        {'op': 'scope', 'id': 's1', 'n': None, 'catch': False, 'body': [], 'children': [
+            {'name': 't1', 'volatile': False, 'steps': [
+                {'op': 'first', 'id': 's2', 'count': None, 'catch': False,
+                 'acts': [{'name': 'c1', 'result': 'v1', 'steps': [
+                              {'op': 'wait', 'n': {'k': 'delay', 'd': 1}, 'id': 's6'}]},
+                          {'name': 'c2', 'steps': [
+                              {'op': 'wait', 'n': {'k': 'delay', 'd': 1}, 'id': 's3'},
+                              {'op': 'raise', 'kind': 'key', 'tag': 'e1', 'id': 's4'}]}],
+                 'body': [{'op': 'wait', 'n': {'k': 'delay', 'd': 2}, 'id': 's5'}]}]}]}]}],
+}
+
+
 def build(seed, index):
     if index < 0:
         # fixed program in which known finding D15 strikes (see C03): its consequence - the
